@@ -709,6 +709,40 @@ Definition from_digit (w N : Z) (fuel : nat) (digit : Z) : res (list Z) :=
   out <- arr_set out 0 digit ;;
   Done out.
 
+(* src/buint/mod.rs: fn digits *)
+Definition digits (w N : Z) (fuel : nat) (self : list Z) : res (list Z) :=
+  Done self.
+
+(* src/buint/mod.rs: fn from_digits *)
+Definition from_digits (w N : Z) (fuel : nat) (digits : list Z) : res (list Z) :=
+  Done digits.
+
+(* src/buint/mod.rs: fn bit *)
+Definition bit (w N : Z) (fuel : nat) (self : list Z) (index : Z) : res (bool) :=
+  t1' <- arr_get self (ix_shr index (digit_BIT_SHIFT w)) ;;
+  let digit := t1' in
+  t2' <- dshl w 1 (ix_and index (digit_BITS_MINUS_1 w)) ;;
+  Done (negb ((dg_and w digit t2') =? 0)).
+
+(* src/buint/mod.rs: fn set_bit *)
+Definition set_bit (w N : Z) (fuel : nat) (self : list Z) (index : Z) (value : bool) : res (list Z) :=
+  let t1' := (ix_shr index (digit_BIT_SHIFT w)) in
+  t2' <- arr_get self t1' ;;
+  let shift := (ix_and index (digit_BITS_MINUS_1 w)) in
+  t3' <- arr_get self t1' ;;
+  t4' <- dshl w 1 shift ;;
+  t5' <- dshl w (Z.b2z value) shift ;;
+  self <- arr_set self t1' (dg_or w (dg_and w t3' (u_not w t4')) t5') ;;
+  Done self.
+
+(* src/buint/mod.rs: fn power_of_two *)
+Definition power_of_two (w N : Z) (fuel : nat) (power : Z) : res (list Z) :=
+  let out := (ZERO (Z.to_nat N)) in
+  t1' <- usub w 1 ;;
+  t2' <- dshl w 1 (ix_and power t1') ;;
+  out <- arr_set out (ix_shr power (digit_BIT_SHIFT w)) t2' ;;
+  Done out.
+
 (* src/bint/overflowing.rs: fn overflowing_add *)
 Definition I_overflowing_add (w N : Z) (fuel : nat) (self : list Z) (rhs : list Z) : res (list Z * bool) :=
   let out := (ZERO (Z.to_nat N)) in
